@@ -473,7 +473,71 @@ def cw6(P, C):
         raise core.AnalysisBroken("CW-6: no wrapper dispatches on an enumerated selector")
 
 
+def cw7(P, C):
+    """CW-7: wrappers that can report failure reject a handle that holds no table before they dereference it."""
+    C.rule("CW-7", "a handle is valid after splinetable_init, after a failed read and after splinetable_free — in the last two states its data "
+           "pointer is null.  Every wrapper that reports failures (it has a failure value and handles exceptions) "
+           "tests `!table->data` in an argument rejection that precedes the first use of the pointer; most wrappers do (the key, fit, "
+           "convolve and grid wrappers), so the others contradict them (a crash is not a non-zero return)", floor=8)
+    n = 0
+    for f in wrappers(P):
+        rt = f.d.get("rtype", "")
+        if rt not in ("int",) and "*" not in rt:
+            continue                      # accessors without a failure channel: precondition 'holds a table'
+        if f.name in ("splinetable_init", "splinetable_free", "readsplinefitstable", "readsplinefitstable_mem", "ndsparse_allocate"):
+            continue                      # these create or release the object behind the handle
+        if not any(f.k(x) == "CXXTryStmt" for x in f.walk()):
+            continue                      # plain accessors (no failure handling at all): their precondition is a handle that holds a table
+        hp = [p for p in f.params if "splinetable" in p.get("type", "") and "*" in p.get("type", "") and "buffer" not in p.get("type", "")]
+        if not hp:
+            continue
+        hid = hp[0]["id"]
+
+        def is_data(x):
+            x = f.strip(x)
+            if f.k(x) != "MemberExpr" or f.nodes[x].get("member") != "data":
+                return False
+            b = f.strip(f.ch(x)[0]) if f.ch(x) else -1
+            return b >= 0 and f.k(b) == "DeclRefExpr" and f.nodes[b]["decl"].get("id") == hid
+        uses = [x for x in f.walk() if is_data(x)]
+        derefs = []
+        tests = []
+        for x in uses:
+            p_ = f.parent[x]
+            while p_ >= 0 and f.k(p_) in ("ImplicitCastExpr", "ParenExpr"):
+                p_ = f.parent[p_]
+            if p_ >= 0 and f.k(p_) == "UnaryOperator" and f.nodes[p_].get("op") == "!":
+                tests.append(p_)
+            elif p_ >= 0 and f.k(p_) == "BinaryOperator" and f.nodes[p_].get("op") in ("==", "!=", "="):
+                tests.append(p_)
+            else:
+                derefs.append(x)
+        if not derefs:
+            continue
+        # a rejection: if (... || !table->data || ...) return <failure>;
+        rejected = False
+        pos = f.node_positions()
+        for t in tests:
+            g = next((a for a in f.ancestors(t) if f.k(a) == "IfStmt"), None)
+            if g is None or f.nodes[g].get("then", -1) < 0:
+                continue
+            conn, leaves = core.cond_leaves(f, f.nodes[g]["cond"])
+            if conn not in ("||", "leaf") or f.strip(t) not in [f.strip(l) for l in leaves]:
+                continue
+            rets = [r for r in f.walk(f.nodes[g]["then"]) if f.k(r) == "ReturnStmt"]
+            if rets and all(fail_value_ok(f, r) for r in rets) and f.nodes[g]["loc"] < f.nodes[derefs[0]]["loc"]:
+                rejected = True
+        n += 1
+        C.ob("CW-7", f.name, "empty-handle-rejected", rejected, f.loc(derefs[0]),
+             "a handle without a table is rejected with the failure value before table->data is used" if rejected else
+             "table->data is dereferenced without having been tested: on a handle that holds no table (after a failed read, after "
+             "splinetable_free) the wrapper crashes instead of returning its failure value")
+    if n == 0:
+        raise core.AnalysisBroken("CW-7: no wrapper with a failure value dereferences the handle")
+
+
 def run(P, C):
+    cw7(P, C)
     cw6(P, C)
     cw0(P, C)
     cw1(P, C)
